@@ -205,6 +205,18 @@ DecN(s) ==
 (* "a node or an error, no panic, no hang"                                 *)
 IsEncoding(s) == LET d == DecN(s) IN d.ok /\ d.rest = <<>> /\ EncN(d.node) = s
 
+(* ... and so are, recursively, its inlined children, which must be leaves  *)
+(* or branches (a child is never the empty node): only then is s the        *)
+(* encoding of a TRIE node.  The in-memory decoder decodes inlined children *)
+(* eagerly, so it may reject (with an error) what is not deeply valid.      *)
+RECURSIVE DeepEncoding(_)
+DeepEncoding(s) ==
+  /\ IsEncoding(s)
+  /\ LET n == DecN(s).node
+     IN \A c \in 0..15 : n.kids[c].t = "inline" =>
+          /\ DeepEncoding(n.kids[c].b)
+          /\ DecN(n.kids[c].b).node.kind # "empty"
+
 (* C07 theorem, instantiated by the model-checking modules *)
 RoundTrip(n) == LET d == DecN(EncN(n)) IN d.ok /\ d.rest = <<>> /\ d.node = n
 
